@@ -18,7 +18,7 @@ PROP = {
         "n_thorough": 2000,
     }],
     "rule": ("each case = ledgers of 2-4 of 6 operators built with the real keepers in a cache context (deposits / delegations / self-association / "
-             "undelegations in 6 assets with decimals 6/18/0/8/2/4 (the sixth is the first one's token contract on a second client chain whose hex id 0x6 is a prefix of 0x65, with its own oracle token), optional slash (half of them full 100 % slashes that empty the operator's pools), optional amount-without-shares pool), oracle prices with 0..18 price "
+             "undelegations in 7 assets with decimals 6/18/0/8/2/4/0 (the two 0-decimals assets sort before resp. after all the others) (the sixth is the first one's token contract on a second client chain whose hex id 0x6 is a prefix of 0x65, with its own oracle token), optional slash (half of them full 100 % slashes that empty the operator's pools), optional amount-without-shares pool), oracle prices with 0..18 price "
              "decimals set through SetPrices (positive, missing round, zero price; one asset has no oracle token), 1-3 AVSs (+ the dogfood AVS) with random "
              "asset lists (rarely an unregistered asset id), epoch identifier minute/hour/day/week, starting epoch at num / num+1 (boundary) / num+2 / "
              "random, registered through UpdateAVSInfo or SetAVSInfo, real OptIn of random operators, then minimum self delegation set to 0 / small / "
@@ -38,7 +38,7 @@ PROP = {
         "common_func.go CalculateUSDValue, x/delegation/keeper/share.go TokensFromShares, x/avs/keeper/avs.go GetEpochEndAVSs / GetAVSSupportedAssets / "
         "GetAVSMinimumSelfDelegation, x/assets/keeper/operator_asset.go IterateAssetsForOperator (hand-written Gallina transcription, tied by differential execution)",
         "the oracle price per asset (ok / default / hard error) is an input of the model and the monitor, resolved by the harness itself (asset id -> token by comma-split + "
-        "equality over the stored oracle params, latest round from the price store), not through GetMultipleAssetsPrices; asset decimals, IsOptedIn and the AVS registry are "
+        "equality over the stored oracle params, latest round from the price store), not through GetMultipleAssetsPrices; asset decimals by the harness's own decode of the stored StakingAssetInfo; IsOptedIn and the AVS registry are "
         "read from the real keepers",
         "identities (operator, asset, AVS key string, epoch identifier) are mapped to integers by the harness; AVS key strings case-sensitively, with the "
         "other spellings of a registered AVS address reported as aliases",
